@@ -8,6 +8,7 @@ import (
 	"fmt"
 	"os"
 	"os/exec"
+	"path"
 	"sort"
 	"strings"
 	"testing"
@@ -283,6 +284,21 @@ func TestDeterminism(t *testing.T) {
 		o.OddNames = true
 		b, classes := j5sgen.Draw(t, o)
 		files := b.Render()
+		cls := []string{}
+		// a generated file left over from an earlier run, next to its source (j5
+		// writes X.j5s.proto beside X.j5s): it is not a source file, and the output
+		// must not depend on where the listing puts it
+		if rapid.IntRange(0, 2).Draw(t, "stale") == 0 {
+			var srcs []string
+			for f := range files {
+				srcs = append(srcs, f)
+			}
+			sort.Strings(srcs)
+			src := rapid.SampledFrom(srcs).Draw(t, "stalefor")
+			pkg := strings.ReplaceAll(path.Dir(src), "/", ".")
+			files[src+".proto"] = "syntax = \"proto3\";\n\npackage " + pkg + ";\n\nmessage StaleLeftover {\n  string was_here = 1;\n}\n"
+			cls = append(cls, "stale-generated-file")
+		}
 		c := detCase{Files: files, Repeats: 2}
 		var names []string
 		for f := range files {
@@ -301,7 +317,6 @@ func TestDeterminism(t *testing.T) {
 			c.Subproc = true
 		}
 		nt := (classes["multi-file-package"] && classes["multi-package"]) || classes["enum-option-info"]
-		cls := []string{}
 		for k := range classes {
 			cls = append(cls, k)
 		}
